@@ -182,6 +182,8 @@ def q(s):
 def cmd_text(ws, l):
     t = ws["targets"][l]
     pre = t["pkg"] + "/" if t["pkg"] else ""
+    if t.get("raw"):
+        return "printf '%s\\n' " + q(l) + ' >> "$VERIF_TRACE"\n' + t["raw"]
     L = [": " + q(t["salt"]), "printf '%s\\n' " + q(l) + ' >> "$VERIF_TRACE"']
     if t.get("beh", 0) == 1:
         L.append("exit 3")
@@ -918,3 +920,234 @@ def describe(hist):
                  (" --fail-fast" if s.get("fail_fast") else "")
             out.append("build " + " ".join(s["patterns"]) + fl)
     return out
+
+
+# ------------------------------------------------------------------------------------------------
+# special families (oracle-only: the generic model does not cover them)
+# ------------------------------------------------------------------------------------------------
+
+def gen_globout(rng):
+    """F-globout shape (not WF): b's input glob also matches an output of its dependency a (same package)"""
+    v = rng.randint(0, 99)
+    ws = {"targets": {}, "aliases": {}, "files": {"p0/i0_0.in": "v%d\n" % v, "p0/e1.txt": "v%d\n" % (v + 1)}}
+    ws["targets"]["//p0:t0"] = {"pkg": "p0", "name": "t0", "globs": ["i0_*.in"], "excl": [], "salt": "s1", "deps": [],
+                                "outs": [{"dir": False, "rel": "gen0.in"}], "fp": {}, "nocache": False, "checks": [],
+                                "beh": 0, "skip": [], "sets": []}
+    ws["targets"]["//p0:t1"] = {"pkg": "p0", "name": "t1", "globs": ["gen*.in", "e1.txt"], "excl": [], "salt": "s2",
+                                "deps": ["//p0:t0"], "outs": [{"dir": False, "rel": "o1.txt"}], "fp": {}, "nocache": False,
+                                "checks": [], "beh": 0, "skip": [], "sets": []}
+    b = {"k": "build", "patterns": ["//..."], "minimal": False, "enable_cache": True, "fail_fast": False}
+    return {"ws": ws, "algo": "xxh3", "steps": [dict(b), dict(b), dict(b)], "tags": ["globout", "not-wf"]}
+
+
+def raw_target(pkg, name, globs, deps, outs, raw, nocache=False):
+    return {"pkg": pkg, "name": name, "globs": globs, "excl": [], "salt": "raw", "deps": deps,
+            "outs": [{"dir": False, "rel": o} for o in outs], "fp": {}, "nocache": nocache, "checks": [], "beh": 0,
+            "skip": [], "sets": [], "raw": raw}
+
+
+def gen_swap(rng, nocache=True):
+    """F-nocache-outhash shape: a (no-cache) copies x.in -> o1.txt, y.in -> o2.txt; b concatenates both.
+    The edit swaps the contents of x.in and y.in, so a's two outputs swap their contents."""
+    x, y = "c%d\n" % rng.randint(0, 49), "c%d\n" % rng.randint(50, 99)
+    ws = {"targets": {}, "aliases": {}, "files": {"pa/x.in": x, "pa/y.in": y}}
+    ws["targets"]["//pa:a"] = raw_target("pa", "a", ["x.in", "y.in"], [], ["o1.txt", "o2.txt"],
+                                         "cat x.in > o1.txt; cat y.in > o2.txt", nocache=nocache)
+    ws["targets"]["//pb:b"] = raw_target("pb", "b", [], ["//pa:a"], ["out.txt"], "cat ../pa/o1.txt ../pa/o2.txt > out.txt")
+    ws2 = copy.deepcopy(ws)
+    ws2["files"]["pa/x.in"], ws2["files"]["pa/y.in"] = y, x
+    b = {"k": "build", "patterns": ["//..."], "minimal": False, "enable_cache": True, "fail_fast": False}
+    return {"ws": ws, "algo": rng.choice(["xxh3", "sha256"]),
+            "steps": [dict(b), {"k": "edit", "ws": ws2, "writes": [], "what": "swap contents of pa/x.in and pa/y.in"}, dict(b)],
+            "tags": ["swap", "oracle-only"]}
+
+
+# ------------------------------------------------------------------------------------------------
+# engine shared by the checks
+# ------------------------------------------------------------------------------------------------
+
+def hkey(h):
+    return hashlib.sha1(json.dumps({"ws": h["ws"], "steps": h["steps"]}, sort_keys=True).encode()).hexdigest()
+
+
+def has_model(h):
+    return "oracle-only" not in h.get("tags", []) and "not-wf" not in h.get("tags", [])
+
+
+def run_both(ctx, hists, scratch_name="h", fixes=ALL_FIXES, par=4, force_minimal=None):
+    """-> list of records {hist, real, model, diffs}; None if grog could not be built"""
+    grog = ctx.grog_binary()
+    if not grog:
+        return None
+    real = run_real_many(grog, hists, ctx.scratch(scratch_name), par=par, force_minimal=force_minimal, prefix=scratch_name)
+    mh = [h for h in hists if has_model(h)]
+    mo = iter(run_model(ctx, mh, fixes, force_minimal)) if mh else iter([])
+    recs = []
+    for h, r in zip(hists, real):
+        m = next(mo) if has_model(h) else None
+        recs.append({"hist": h, "real": r, "model": m, "diffs": compare(h, r, m) if m is not None else []})
+    return recs
+
+
+def selected_outputs(ws, patterns):
+    """declared output paths of the targets a build of `patterns` processes"""
+    return sorted(out_path(ws["targets"][l], o) for l in selected(ws, patterns) for o in ws["targets"][l]["outs"])
+
+
+def clean_oracle(ctx, hist, real, scratch_name="clean", par=4, which="last"):
+    """C01's model-independent oracle. For the last (or every) successful cache-enabled mode-`all` build of the history:
+    a real from-scratch build (fresh cache root, fresh workspace holding only the sources and external files) of the
+    sources at that point must succeed and give the same bytes at every declared output of the selected targets.
+    -> list of failures {build, path, incremental, clean}"""
+    grog = ctx.grog_binary()
+    bidx = [i for i, s in enumerate(hist["steps"]) if s["k"] == "build"]
+    cands = []
+    for n, si in enumerate(bidx):
+        s = hist["steps"][si]
+        if n < len(real) and real[n].get("ok") and s.get("enable_cache", True) and not s.get("minimal"):
+            cands.append((n, si))
+    if which == "last":
+        cands = cands[-1:]
+    fails = []
+
+    def one(c):
+        n, si = c
+        ws = final_ws(hist, si)
+        base = os.path.join(ctx.scratch(scratch_name), "%s-%d" % (hkey(hist)[:10], n))
+        try:
+            ob = clean_build(grog, ws, hist["steps"][si]["patterns"], base, hist.get("algo", "xxh3"), external_files(hist, si))
+        finally:
+            shutil.rmtree(base, ignore_errors=True)
+        out = []
+        if not ob["ok"]:
+            out.append({"build": n, "path": None, "incremental": "build succeeded", "clean": "from-scratch build failed: " + ob["log"][-400:]})
+            return out
+        for p in selected_outputs(ws, hist["steps"][si]["patterns"]):
+            if real[n]["fs"].get(p) != ob["fs"].get(p):
+                out.append({"build": n, "path": p, "incremental": real[n]["fs"].get(p), "clean": ob["fs"].get(p)})
+        return out
+    with ThreadPoolExecutor(max_workers=par) as ex:
+        for r in ex.map(one, cands):
+            fails += r
+    return fails, len(cands)
+
+
+def truncate(hist, nbuilds):
+    """prefix of the history ending with its nbuilds-th build"""
+    out, n = [], 0
+    for s in hist["steps"]:
+        out.append(s)
+        if s["k"] == "build":
+            n += 1
+            if n == nbuilds:
+                break
+    h = dict(hist)
+    h["steps"] = out
+    return h
+
+
+def shrink(hist, still_fails, budget=12):
+    """greedy delta-debugging on steps: drop one non-final step at a time while `still_fails(hist)` holds"""
+    cur = hist
+    changed = True
+    while changed and budget > 0:
+        changed = False
+        for i in range(len(cur["steps"]) - 1):
+            cand = dict(cur)
+            cand["steps"] = cur["steps"][:i] + cur["steps"][i + 1:]
+            if not any(s["k"] == "build" for s in cand["steps"]):
+                continue
+            budget -= 1
+            if budget < 0:
+                break
+            try:
+                if still_fails(cand):
+                    cur = cand
+                    changed = True
+                    break
+            except Exception:
+                pass
+    return cur
+
+
+def stats(recs):
+    """distribution counters for the evidence file"""
+    c = {"histories": len(recs), "builds": 0, "executions": 0, "hits": 0, "failed_builds": 0, "edits": 0, "taints": 0,
+         "tamperings": 0, "minimal_builds": 0, "cache_disabled_builds": 0, "targets_total": 0, "families": {}}
+    nontrivial = set()
+    for r in recs:
+        h = r["hist"]
+        for t in h.get("tags", []):
+            c["families"][t] = c["families"].get(t, 0) + 1
+        c["targets_total"] += len(h["ws"]["targets"])
+        ws = h["ws"]
+        obs = [o for o in r["real"] if "ok" in o]
+        n = 0
+        any_exec = any_hit = False
+        for s in h["steps"]:
+            if s["k"] == "edit":
+                if s.get("what", "").startswith("tamper"):
+                    c["tamperings"] += 1
+                else:
+                    c["edits"] += 1
+                ws = s["ws"]
+            elif s["k"] == "taint":
+                c["taints"] += 1
+            elif s["k"] == "build" and n < len(obs):
+                o = obs[n]
+                n += 1
+                c["builds"] += 1
+                c["executions"] += len(o["executed"])
+                sel = selected(ws, s["patterns"])
+                hits = max(0, len(sel) - len(set(o["executed"])))
+                c["hits"] += hits if o["ok"] else 0
+                any_exec |= bool(o["executed"])
+                any_hit |= hits > 0 and o["ok"]
+                c["failed_builds"] += 0 if o["ok"] else 1
+                c["minimal_builds"] += 1 if s.get("minimal") else 0
+                c["cache_disabled_builds"] += 0 if s.get("enable_cache", True) else 1
+        if any_exec and any_hit and len(obs) >= 2:
+            nontrivial.add(hkey(h))
+    c["distinct_nontrivial"] = len(nontrivial)
+    return c
+
+
+def sample_of(rec, nmax=3):
+    h = rec["hist"]
+    obs = [o for o in rec["real"] if "ok" in o]
+    return {"targets": sorted(h["ws"]["targets"]), "aliases": h["ws"]["aliases"], "history": describe(h),
+            "builds": [{"ok": o["ok"], "executed": o["executed"]} for o in obs][:8]}
+
+
+def report_disagreement(ctx, rec, correspondence, extra=None):
+    d = rec["diffs"][0]
+    obj = {"kind": "correspondence", "correspondence": correspondence, "history": rec["hist"], "described": describe(rec["hist"]),
+           "first_difference": {"build": d[0], "field": d[1], "impl": str(d[2])[:600], "model": str(d[3])[:600]},
+           "n_differences": len(rec["diffs"])}
+    if extra:
+        obj.update(extra)
+    ctx.violation("model and implementation disagree on a build history (%s)" % correspondence, obj, found_input=False)
+
+
+def replay_history(ctx, rep, fixes=ALL_FIXES):
+    h = rep.get("history")
+    if not h:
+        print("nothing to replay in this file (see 'kind')")
+        return 0
+    recs = run_both(ctx, [h], "replay", fixes)
+    if recs is None:
+        return 1
+    r = recs[0]
+    for line in describe(h):
+        print("  ", line)
+    obs = [o for o in r["real"] if "ok" in o]
+    for i, o in enumerate(obs):
+        m = r["model"][i] if isinstance(r["model"], list) and i < len(r["model"]) else None
+        print("build %d: impl ok=%s executed=%s | model %s" % (i, o["ok"], o["executed"],
+              ("ok=%s executed=%s" % (m["ok"], m["executed"])) if m else "-"))
+    for d in r["diffs"][:10]:
+        print("  DIFF", d[0], d[1], str(d[2])[:200], "|", str(d[3])[:200])
+    fails, n = clean_oracle(ctx, h, r["real"], "replay-clean")
+    for f in fails:
+        print("  CLEAN-BUILD ORACLE FAILS:", f["build"], f["path"], repr(f["incremental"])[:200], "vs", repr(f["clean"])[:200])
+    return 1 if (r["diffs"] or fails) else 0
